@@ -20,6 +20,7 @@ def check(ctx):
     P = ctx.program
     prologue(ctx, P)
     epilogue(ctx, P)
+    stop_and_report(ctx, P)
     # the clock is only ever set to the date of the event about to run (shared instance): a clamped or otherwise derived clock makes the resumed run differ
     from . import c02
     c02.clock(ctx, P, (0, 1))
@@ -132,6 +133,48 @@ def _epilogue_functions(P):
                     if c2 is not None and c2.name in fam and name not in ("append",):
                         todo.append(cand)
     return out, G
+
+
+def stop_and_report(ctx, P):
+    """what a stop leaves behind must be the same whether or not the run was split: the stop epilogue runs on EVERY call of the run methods (a call that
+    finds nothing to do still closes the statistics at its horizon), and the records are re-collected from the customers at every request (no cached list)"""
+    from ..paths import Walker
+    ob = ctx.ob("STOP", "every call of simulate_until_* ends in wrap_up_servers; get_all_records re-collects from get_all_individuals() on every call")
+    sim = P.view("Simulation")
+    for m in ("simulate_until_max_time", "simulate_until_max_customers", "simulate_until_deadlock"):
+        cls, fn = sim.method(m)
+        w = Walker(P, sim, keep=lambda e: e.kind == "call" and e.d["meth"] == "wrap_up_servers", inline=rules.new_helper, loop_iters=(0, 1))
+        bad, n = None, 0
+        for st in w.paths_of(cls, fn):
+            if st.status == "raise":
+                continue
+            n += 1
+            if not st.events:
+                bad = bad or st
+        ob.ok(m, "%s: %d path(s), wrap_up_servers on each" % (m, n))
+        if bad is not None or n == 0:
+            ctx.violation(ob, "R4.must-follow", "Simulation.%s" % m, "self.wrap_up_servers(...)", "stop-without-epilogue",
+                          "a path of %s returns without wrap_up_servers: the server statistics then stay at an earlier horizon (or are never set), so the same run split into "
+                          "several calls reports differently" % m, loc(fn), rules.witness(bad) if bad is not None else None)
+    r = sim.resolve("get_all_records")
+    if r is None:
+        ctx.unrecognised("STOP: Simulation.get_all_records not found")
+        return
+    cls, fn = r
+    w = Walker(P, sim, keep=lambda e: (e.kind == "call" and e.d["meth"] == "get_all_individuals") or e.kind == "return", inline=rules.new_helper, loop_iters=(0, 1))
+    bad, n = None, 0
+    for st in w.paths_of(cls, fn):
+        if st.status != "return":
+            continue
+        n += 1
+        if not any(e.kind == "call" for e in st.events):
+            bad = bad or st
+    reads = [x for x in rules.walk(P, sim, fn) if isinstance(x, ast.Attribute) and isinstance(x.ctx, ast.Load) and x.attr.startswith("all_records") and unparse(x.value) == "self"]
+    ob.ok("get_all_records", "%d returning path(s)" % n)
+    if bad is not None or reads or n == 0:
+        ctx.violation(ob, "R10.epilogue", "Simulation.get_all_records", unparse(reads[0]) if reads else "return", "records-not-recollected",
+                      "get_all_records answers from a stored list instead of collecting the records of all customers again: records written since the last request "
+                      "(a run that was paused, inspected and resumed) are missing", loc(reads[0]) if reads else loc(fn), rules.witness(bad) if bad is not None else None)
 
 
 def epilogue(ctx, P):
